@@ -28,6 +28,13 @@ def handle (toks : List String) : String :=
       s!"ok {r q.sum} {r q.discount} {r q.charge} {r q.taxIncluded} {r q.total} {r q.tax} {r q.totalWithTax} {r q.payable} {r q.advances} {r q.due}"
     | some (_, _) => "bad-trailing"
     | none => "bad-doc"
+  | "class" :: rest =>
+    -- is the document in the class of Props.C01.calc_eq_spec, and its largest weight (Spec/C01.lean)
+    match pDoc rest with
+    | some (d, []) =>
+      s!"ok {if GoblVerif.Calc.Err.inDocC d then 1 else 0} {GoblVerif.Calc.Err.docWeight d}"
+    | some (_, _) => "bad-trailing"
+    | none => "bad-doc"
   | _ => "bad-op"
 
 end Driver.C01
